@@ -1,6 +1,7 @@
 import Gen.Sql
 import Gen.Lemmas
 import Model.SqlSession
+import Model.Backends
 /-!
 # The translated `add` / `update` / `delete` / `get` of `SQLStorage` are the session model `SqlSession.step`
 
@@ -59,6 +60,60 @@ theorem gen_sql_get (s : Sess) (self : V) (u : Uid) :
   unfold get_SQLStorage SW
   cases hl : lookup u s.view <;> simp [sessGetM, hl, pairM, cNone, toPolicyM, truth, truthy, bindM]
 
-theorem translatedSql_covers : translatedSql = ["add", "get", "update", "delete"] := by decide
+/-! ### the paged listing (itself a generator) -/
+
+def rowBody : V → List V → (List V → M) → (List V → M) → M := fun l3_policy_model s3 k3 b3 =>
+      (bindM (appendM (pure (stGet s3 0)) (toPolicyM (pure l3_policy_model))) fun v___y =>
+      (k3 [v___y]))
+
+theorem row_loop (rows : St) : ∀ (acc : List V) (k : List V → M),
+    loopS (rows.map fun (x : Uid × Pol) => V.smodel x.1 x.2 true) rowBody [.seq acc] k =
+      k [.seq (acc ++ rows.map fun (x : Uid × Pol) => V.polv x.1 x.2 true)] := by
+  induction rows with
+  | nil => intro acc k; simp [loopS]
+  | cons x tail ih =>
+    intro acc k
+    simp only [List.map_cons, loopS, rowBody, stGet, List.getD_cons_zero, pure_ok, toPolicyM, bindM_ok, appendM, ih,
+      List.append_assoc, List.singleton_append]
+
+theorem lt_intS (a b : Int) : cmpLt (.ok (.py (.int a))) (cInt b) = ofBool (Decidable.decide (a < b)) := by
+  simp only [cmpLt, cmp2, bindM, cInt, pyLt, pyCmp, asNum, numEq, numLt, liftR, Except.map, ofBool]
+  by_cases h1 : a = b
+  · subst h1; simp
+  · by_cases h2 : a < b
+    · simp [h1, h2]
+    · simp [h1, h2]
+
+theorem gen_sql_check (s : Sess) (l o : Int) :
+    check_limit_and_offset_StorageS (.py (.int l)) (.py (.int o)) (SW s) =
+      if Backends.checkLimitOffset l o then .ok (.sworld s false (some .valueError)) else .ok (.seq [.py .none, SW s]) := by
+  unfold check_limit_and_offset_StorageS SW Backends.checkLimitOffset
+  simp only [pure_ok, lt_intS, ofBool_eq, iteM_ok, truth_bool, raiseSqlM, bindM_ok, pairM, cNone]
+  by_cases h1 : l < 0 <;> by_cases h2 : o < 0 <;> simp [h1, h2]
+
+/-- **`SQLStorage.get_all` as written in the source is the model's `sqlGetAll`**: the limit / offset check, then
+`ORDER BY uid LIMIT (stop - start) OFFSET start` over the session's view, every row converted back -/
+theorem gen_sql_get_all (s : Sess) (self : V) (l o : Int) :
+    get_all_SQLStorage self (.py (.int l)) (.py (.int o)) (SW s) =
+      (match Backends.sqlGetAll s l o with
+       | Option.none => .ok (.sworld s false (some .valueError))
+       | some pg => .ok (.seq [.seq (pg.map fun (x : Uid × Pol) => V.polv x.1 x.2 true), SW s])) := by
+  unfold get_all_SQLStorage Backends.sqlGetAll
+  simp only [pure_ok, bindM_ok, cEmptyList, gen_sql_check]
+  by_cases hc : Backends.checkLimitOffset l o = true
+  · simp [hc, callProcM]
+  · have hc' : Backends.checkLimitOffset l o = false := by simpa using hc
+    have hl : 0 ≤ l := by simp [Backends.checkLimitOffset] at hc'; omega
+    have ho : 0 ≤ o := by simp [Backends.checkLimitOffset] at hc'; omega
+    have hsum : 0 ≤ o + l := by omega
+    simp only [hc', Bool.false_eq_true, if_false, callProcM, SW, addM, bindM_ok, sessSliceQueryM, ho, hsum, decide_true,
+      Bool.and_self, if_true, pyForS, items]
+    have := row_loop (List.take ((o + l).toNat - o.toNat) (List.drop o.toNat (sortUid s.view))) []
+      (fun r3 => pairM (Except.ok (stGet r3 0)) (Except.ok (V.sworld s false Option.none)))
+    show loopS _ rowBody [V.seq []] _ = _
+    rw [this]
+    simp [pairM, stGet]
+
+theorem translatedSql_covers : translatedSql = ["_check_limit_and_offset", "get_all", "add", "get", "update", "delete"] := by decide
 
 end Vakt.GenEquiv
